@@ -87,8 +87,10 @@ extern "C" {
 static uint32_t user_size(CO_OBJ *, CO_NODE *, uint32_t) { return 4; }
 // user type: Data >= 0x01000000 = refuse with this application abort code; smaller = refuse by returning this CO_ERR value, no application code
 static CO_ERR user_read(CO_OBJ *obj, CO_NODE *node, void *, uint32_t) { uint32_t v = (uint32_t)obj->Data; if (v >> 24) { COObjTypeUserSDOAbort(obj, node, v); return CO_ERR_TYPE_RD; } return CO_ERR_TYPE_RD; }
-static CO_ERR user_write(CO_OBJ *obj, CO_NODE *node, void *, uint32_t) { uint32_t v = (uint32_t)obj->Data; if (v >> 24) { COObjTypeUserSDOAbort(obj, node, v); return CO_ERR_TYPE_WR; } return (CO_ERR)v; }
-const CO_OBJ_TYPE COTVerifUser = {user_size, 0, user_read, user_write, 0};
+static CO_ERR user_write(CO_OBJ *obj, CO_NODE *node, void *, uint32_t) { uint32_t v = (uint32_t)obj->Data; if (v >> 24) { COObjTypeUserSDOAbort(obj, node, v); return CO_ERR_TYPE_WR; } return v == 0xFFFFu ? CO_ERR_TYPE_WR : (CO_ERR)v; }
+// Data == 0xFFFF: a type that refuses to be rewound (Reset fails), like the parameter store entries do for sub-indices > 0
+static CO_ERR user_reset(CO_OBJ *obj, CO_NODE *, uint32_t) { return (uint32_t)obj->Data == 0xFFFFu ? CO_ERR_TYPE_RESET : CO_ERR_NONE; }
+const CO_OBJ_TYPE COTVerifUser = {user_size, 0, user_read, user_write, user_reset};
 }
 
 // ------------------------------------------------------------------ build / teardown
